@@ -40,9 +40,9 @@ META = {
 THEOREMS = [
     "view_is_flattened", "lookup_priority", "fallback_then_default", "override_wins", "master_default",
     "reprioritise", "profiles_end_profileless", "list_tuple_dict_consistent", "bool_eight_spellings",
-    "replace_only_known", "wrap_partitions_words", "fill_fits_unchanged", "text_roundtrip", "int_float_consistent", "replace_mixed_texts",
+    "replace_only_known", "option_forms", "wrap_partitions_words", "fill_fits_unchanged", "text_roundtrip", "int_float_consistent", "replace_mixed_texts",
     "c19_stale_refuted", "c19_fbsect_refuted", "c19_mkey_refuted", "c19_fmt_refuted", "c19_metanl_refuted",
-    "c19_clear_refuted", "replace_uses_current_vars", "c19_lead_refuted",
+    "c19_clear_refuted", "replace_uses_current_vars", "c19_lead_refuted", "c19_comment_continuation_refuted",
 ]
 
 REQ = "From Verif Require Import Lib.Dyadic Model.C19_Config.\nOpen Scope string_scope."
@@ -74,6 +74,10 @@ QUIRKS[64] = ("c19_leading_blank_on_readback",
               "write_to_file + update_from_file: a value (or metadata value) whose first word does not fit on the first line "
               "(longer than the wrap width minus the 33-column key part) is written on continuation lines only and read "
               "back with a leading blank")
+
+QUIRKS[128] = ("c19_comment_continuation_lost",
+               "write_to_file + update_from_file: ConfigParser treats a continuation line that starts with '#' or ';' as a "
+               "comment, so a wrapped value (or metadata value) loses the line that happens to start with such a word")
 
 SECS = ["sa", "sb"]
 KEYS = ["k1", "k2", "k3"]
@@ -392,7 +396,8 @@ def gen_value(rng, simple=False):
 
 
 HYPH_WORDS = ["north-east-by-north", "ny-alesund-07", "2020-01-01", "2018-12-28/2019-01-15", "/data/obs-archive/rinex-v3/site-004.rnx",
-              "a-b", "x-", "-y", "well--known", "e-mail", "1-2-3-4-5-6-7-8-9", "plain", "{station}-{doy}", "gps:L1-C/A"]
+              "a-b", "x-", "-y", "well--known", "e-mail", "1-2-3-4-5-6-7-8-9", "plain", "{station}-{doy}", "gps:L1-C/A",
+              "#tag", ";note"]
 
 
 def gen_long_value(rng, n):
@@ -721,6 +726,22 @@ CORPUS += [
     # clear() then an update: the cleared entry must not come back
     dict(name="cfg", ops=[dict(VAR_ALPHABET[0]), dict(VAR_ALPHABET[5]), dict(VAR_ALPHABET[1])]),
 ]
+def comment_cont_case():
+    """Words starting with '#' / ';' placed so that they start a continuation line at the widths 200, 60 and 45, in entry
+    values and in a metadata value (open finding c19_comment_continuation_lost)."""
+    ops = []
+    for i, w in enumerate((200, 60, 45)):
+        first = "x" * (w - 33 - 3)            # fills the first line; the next word goes to a continuation line
+        ops.append(dict(op="update", section="sa", key=f"k{i + 1}", value=f"{first} #second-word and more", profile=None,
+                        source="s", meta=({"help": f"{first} ;semicolon word and more"} if i == 0 else None), allow_new=True))
+    qs = [dict(q="layout")]
+    for w in (200, 60, 45):
+        qs.append(dict(q="as_str", width=w, metadata=True))
+        qs.append(dict(q="readback", width=w, case_sensitive=True))
+    return dict(name="cfg", ops=ops, queries=qs)
+
+
+CORPUS.append(comment_cont_case())
 CORPUS_QUERIES = [
     dict(q="layout"), dict(q="get", key="k1", value=None, section="sa", default=None),
     dict(q="get", key="k1", value=None, section="sa", default="dflt"),
@@ -768,7 +789,8 @@ def run(ctx):
 
     # ---- corpus of earlier failures first
     for c in CORPUS:
-        add(dict(name=c["name"], ops=[dict(o) for o in c["ops"]], queries=[dict(q) for q in CORPUS_QUERIES]), "corpus")
+        add(dict(name=c["name"], ops=[dict(o) for o in c["ops"]],
+                 queries=[dict(q) for q in c.get("queries", CORPUS_QUERIES)]), "corpus")
 
     # ---- A. bounded-exhaustive sequences (canonical up to renaming)
     scale = float(os.environ.get("VERIF_C19_SCALE", "1"))      # development knob (mutant runs); 1 in normal use
